@@ -63,7 +63,7 @@ fn do_action(ex: &Executor, sh: &Shared, pid: &str, tid: &str, action: &str, opt
     };
     let ok = res.is_ok();
     let err = res.err().map(|e| short(&e));
-    push(&sh.rec, json!({"t":"action","call":call,"pid":pid,"tid":tid,"action":action,"options":options,"ok":ok,"err":err,"src":src}));
+    push(&sh.rec, json!({"t":"action","call":call,"pid":pid,"tid":tid,"action":action,"options":options,"ok":ok,"err":err,"src":src,"thread":verif::thread_tag()}));
     sh.busy.fetch_sub(1, Ordering::SeqCst);
     (ok, err)
 }
@@ -812,7 +812,7 @@ fn main() {
             records.push(match e {
                 verif::Event::State { seq, pid, tid, nid, kind, old, new, via } => json!({"t":"state","seq":seq,"pid":pid,"tid":tid,"nid":nid,"kind":kind,"old":old,"new":new,"via":via}),
                 verif::Event::Create { seq, pid, tid, nid, kind, prev, level } => json!({"t":"create","seq":seq,"pid":pid,"tid":tid,"nid":nid,"kind":kind,"prev":prev,"level":level}),
-                verif::Event::Exec { seq, pid, tid, phase } => json!({"t":"exec","seq":seq,"pid":pid,"tid":tid,"phase":phase}),
+                verif::Event::Exec { seq, pid, tid, phase, thread } => json!({"t":"exec","seq":seq,"pid":pid,"tid":tid,"phase":phase,"thread":thread}),
                 verif::Event::Emit { seq, what, id, pid, tid, state } => json!({"t":"emit","seq":seq,"what":what,"id":id,"pid":pid,"tid":tid,"state":state}),
             });
         }
